@@ -126,8 +126,21 @@ def get(cfg, custom=None):
     else:
         cwd, args, crates = _configs()[cfg]
     d = os.path.join(CACHE, "facts", key, cfg)
+    last = None
+    for attempt in range(3):
+        try:
+            return _get_locked(cfg, key, d, cwd, args, crates)
+        except FileNotFoundError as e:      # an entry vanished under us (pruned by a check of another tree): extract again
+            last = e
+            time.sleep(0.2 * (attempt + 1))
+    raise last
+
+
+def _get_locked(cfg, key, d, cwd, args, crates):
     os.makedirs(os.path.dirname(d), exist_ok=True)
-    lock = open(os.path.join(CACHE, "facts", ".lock-" + cfg), "w")
+    # one lock per (tree state, configuration): checks of different trees do not wait for each other, and everything
+    # that reads or replaces the entry happens under the lock
+    lock = open(os.path.join(CACHE, "facts", ".lock-%s-%s" % (key, cfg)), "w")
     fcntl.flock(lock, fcntl.LOCK_EX)
     try:
         if not os.path.exists(os.path.join(d, ".done")):
@@ -149,29 +162,54 @@ def get(cfg, custom=None):
             shutil.rmtree(d, ignore_errors=True)
             os.rename(tmp, d)
             _prune(keep=key)
+        # mark the tree state as in use (pruning goes by this time stamp)
+        try:
+            os.utime(os.path.dirname(d), None)
+        except OSError:
+            pass
+        rc = int(open(os.path.join(d, "rc")).read())
+        log = open(os.path.join(d, "cargo.log")).read()
+        facts = {}
+        for fn in sorted(os.listdir(d)):
+            if fn.endswith(".json"):
+                with open(os.path.join(d, fn)) as f:
+                    facts[fn[:-5]] = json.load(f)
+        return {"rc": rc, "log": log, "facts": facts, "dir": d,
+                "wall": float(open(os.path.join(d, "wall")).read())}
     finally:
         fcntl.flock(lock, fcntl.LOCK_UN)
         lock.close()
-    rc = int(open(os.path.join(d, "rc")).read())
-    log = open(os.path.join(d, "cargo.log")).read()
-    facts = {}
-    for fn in sorted(os.listdir(d)):
-        if fn.endswith(".json"):
-            with open(os.path.join(d, fn)) as f:
-                facts[fn[:-5]] = json.load(f)
-    return {"rc": rc, "log": log, "facts": facts, "dir": d,
-            "wall": float(open(os.path.join(d, "wall")).read())}
 
 
 def _prune(keep):
-    """Keep the cache small: drop fact sets of older tree states (keep the 3 newest)."""
+    """Keep the cache small: drop fact sets of tree states that no check has used for an hour (beyond the 30 most
+    recently used), and the lock files that belong to them."""
     root = os.path.join(CACHE, "facts")
-    ents = [e for e in os.listdir(root) if not e.startswith(".") and os.path.isdir(os.path.join(root, e))]
-    ents.sort(key=lambda e: os.path.getmtime(os.path.join(root, e)), reverse=True)
+    try:
+        ents = [e for e in os.listdir(root) if not e.startswith(".") and os.path.isdir(os.path.join(root, e))]
+    except OSError:
+        return
+
+    def mt(e):
+        try:
+            return os.path.getmtime(os.path.join(root, e))
+        except OSError:
+            return 0
+    ents.sort(key=mt, reverse=True)
     now = time.time()
     for e in ents[30:]:
-        if e != keep and now - os.path.getmtime(os.path.join(root, e)) > 3600:
+        if e != keep and now - mt(e) > 3600:
             shutil.rmtree(os.path.join(root, e), ignore_errors=True)
+    live = set(ents[:30]) | {keep}
+    try:
+        for fn in os.listdir(root):
+            if fn.startswith(".lock-") and fn.count("-") >= 2:
+                k = fn.split("-")[1]
+                p = os.path.join(root, fn)
+                if k not in live and not os.path.isdir(os.path.join(root, k)) and now - os.path.getmtime(p) > 3600:
+                    os.unlink(p)
+    except OSError:
+        pass
 
 
 if __name__ == "__main__":
